@@ -571,6 +571,26 @@ func suiteCompare(o *Out, thorough bool, seed int64) {
 			}
 		}
 	}
+	// neighbours: two numbers one unit apart in their last digit, for every number of digits and a range of exponents
+	// (an approximate comparison - through binary floating point, say - merges exactly such pairs)
+	for d := 1; d <= 34; d++ {
+		reps := 6
+		if d >= 14 && d <= 19 { // around the precision of binary64
+			reps = 90
+		}
+		for k := 0; k < reps || (thorough && k < 300); k++ {
+			c := randCoef(r, d)
+			ci, _ := new(big.Int).SetString(c, 10)
+			c2 := new(big.Int).Add(ci, big.NewInt(1)).String()
+			e := r.Intn(45) - 22
+			a, b := fmt.Sprintf("%se%d", c, e), fmt.Sprintf("%se%d", c2, e)
+			if k%2 == 1 {
+				a, b = "(-"+a+")", "(-"+b+")"
+			}
+			emitEval(o, "["+a+" < "+b+", "+a+" == "+b+", "+a+" > "+b+", "+a+" === "+b+", "+b+" <= "+a+", "+a+" != "+b+"]", 0, "-", "-", true)
+			emitEval(o, "[a < b, a == b, a >= b, a !== b]", 0, "-", wmap("a", "D+:"+c+":"+fmt.Sprint(e), "b", "D+:"+c2+":"+fmt.Sprint(e)), true)
+		}
+	}
 	// null in all its shapes: the untyped nil and typed nil pointers of several Go types, every ordered pair
 	for _, x := range []string{"N", "P", "Ps", "Pm", "Pt", "Pf", "Pd"} {
 		for _, y := range []string{"N", "P", "Ps", "Pm", "Pt", "Pf", "Pd", "Ii:0", "S", "F"} {
@@ -835,7 +855,9 @@ func suiteMisuse(o *Out, thorough bool, seed int64) {
 		cyc := []string{"$t = this, '' + $t", "$t = this, $t + ''", "$t = this, toString($t)", "$t = this, len($t)", "$t = this, h($t)", "$t = this, g($t)", "$t = this, $t()",
 			"$t = this, $t == $t", "$t = this, $t === this", "$t = this, typeof $t", "$t = this, $t.a", "$t = this, $t.$t.$t.a", "$t = this, !$t", "$t = this, $t + 1", "$t = this, -$t",
 			"$t = this, [$t, $t]", "$t = [this], join($t, ',')", "$t = [this], includes($t, 'a')", "$t = [this], '' + $t", "$t = this, $t ? 1 : 2", "$t = this, $t < 's'", "$t = this, 's' < $t",
-			"$t = this, max($t)", "$t = this, upper($t)", "$t = this, $u = $t, $u.$t.a", "$t = this, mapToArr([$t], 'a')", "$t = this, $t.s + $t.$t.s", "$t = this, nofn($t)", "$t = this, $t.k.j($t)"}
+			"$t = this, max($t)", "$t = this, upper($t)", "$t = this, $u = $t, $u.$t.a", "$t = this, mapToArr([$t], 'a')", "$t = this, $t.s + $t.$t.s", "$t = this, nofn($t)", "$t = this, $t.k.j($t)",
+			"'' + env", "toString(env)", "len(env)", "h(env)", "toString(penv)", "'' + penv", "env.Name", "env.Vars.a", "toString(ring)", "'' + ring", "h(ring)", "toString(ringv)", "'' + two", "h(two)", "ring.Name",
+			"toString(selfish)", "'' + selfish", "join(envs, ',')", "'' + envs", "[ring, two] == null", "typeof ring + typeof env", "g(ring)", "g(env)", "!ring", "ring ?? 1", "$r = ring, toString($r)"}
 		type pr struct{ out, errText string }
 		res := make([]pr, len(cyc))
 		var wg sync.WaitGroup
@@ -1272,6 +1294,32 @@ func suiteBridge(o *Out, thorough bool, seed int64) {
 			}
 		}
 	}
+	// a context that is cancelled or past its deadline is still handed to the function, which is still called once:
+	// what cancellation means is the function's business
+	{
+		type ck struct{}
+		for ci, mk := range []func() (context.Context, context.CancelFunc){
+			func() (context.Context, context.CancelFunc) { c, f := context.WithCancel(context.WithValue(context.Background(), ck{}, "v")); f(); return c, f },
+			func() (context.Context, context.CancelFunc) { return context.WithDeadline(context.WithValue(context.Background(), ck{}, "v"), time.Unix(1, 0)) },
+			func() (context.Context, context.CancelFunc) { return context.WithTimeout(context.WithValue(context.Background(), ck{}, "v"), time.Hour) },
+		} {
+			cctx, cancel := mk()
+			calls := 0
+			var seen context.Context
+			audit := func(c context.Context, x interface{}) (interface{}, error) { calls++; seen = c; return "ok", nil }
+			plain := func(x interface{}) (interface{}, error) { calls += 10; return "p", nil }
+			nt := fmt.Sprintf("NOP\tctx-state\t%d", ci)
+			o.Case(nt, "-", true)
+			src, _ := formula.ParseSourceCode([]byte("[audit(1), plain(2), len('abc')]"))
+			rn := formula.NewRunner()
+			rn.SetThis(map[string]interface{}{"audit": audit, "plain": plain})
+			v, e := rn.Resolve(cctx, src.Expression)
+			cancel()
+			if e != nil || calls != 11 || seen == nil || seen.Value(ck{}) != "v" {
+				o.Fail(nt, fmt.Sprintf("with a context in state %d (0 cancelled, 1 past its deadline, 2 live) the host functions were called %d times (11 = each once), saw the caller's context: %v; result %v, %v", ci, calls, seen != nil && seen.Value(ck{}) == "v", v, e))
+			}
+		}
+	}
 	// arguments written in the formula (literals, computed values) rather than read from the data
 	{
 		for _, p := range []string{"s", "i", "i8", "i64", "f32", "f64", "a", "d", "[i", "[s", "[a", "[f64", "Ns", "Ni64"} {
@@ -1356,10 +1404,10 @@ func suiteNames(o *Out, thorough bool, seed int64) {
 	// struct values: exported fields, fields promoted from embedded structs (by value, by pointer, two levels, hidden
 	// by an outer field), unexported and missing names (errors), structs inside maps and arrays
 	{
-		sd := wmap("base", structWire(0), "acct", structWire(2), "pe", structWire(5), "pn", structWire(6), "sh", structWire(7), "deep", structWire(9),
+		sd := wmap("tg", structWire(11), "ra", structWire(12), "rb", structWire(13), "base", structWire(0), "acct", structWire(2), "pe", structWire(5), "pn", structWire(6), "sh", structWire(7), "deep", structWire(9),
 			"w", wmap("s", structWire(2), "n", "N"), "arr", "A2 "+structWire(0)+" "+structWire(5))
-		sroots := []string{"base", "acct", "pe", "pn", "sh", "deep", "w.s", "arr[0]", "arr[1]", "acct.SBase", "acct.Nested", "sh.SBase", "deep.SPtrEmb"}
-		snames := []string{"ID", "Owner", "hidden", "K", "S", "Name", "Balance", "Tags", "Meta", "Ptr", "When", "Nested", "Any", "Ratio", "Count", "Flag", "secret",
+		sroots := []string{"base", "acct", "pe", "pn", "sh", "deep", "w.s", "arr[0]", "arr[1]", "acct.SBase", "acct.Nested", "sh.SBase", "deep.SPtrEmb", "tg", "ra", "rb"}
+		snames := []string{"DisplayName", "Other", "Lower", "lower", "balance", "Qty", "Part", "Note", "ID", "Owner", "hidden", "K", "S", "Name", "Balance", "Tags", "Meta", "Ptr", "When", "Nested", "Any", "Ratio", "Count", "Flag", "secret",
 			"SBase", "SInner", "SPtrEmb", "Level", "id", "Missing", "k"}
 		for _, rt := range sroots {
 			for _, nm := range snames {
@@ -1370,7 +1418,7 @@ func suiteNames(o *Out, thorough bool, seed int64) {
 			}
 			emitEval(o, rt, 0, "-", sd, true)
 		}
-		for _, t := range []string{"acct.ID + 1", "acct.ID === 42", "acct.Owner + '!'", "acct.Balance * 2", "acct.Nested.K + 1", "acct.Nested.K === 9007199254740993", "acct.Meta.k", "acct.Meta.zz",
+		for _, t := range []string{"[ra.Qty, rb.Qty, ra.Qty, rb.Part, ra.Part]", "[rb.Qty, ra.Qty]", "tg.Name + '/' + tg.DisplayName", "tg.Balance + tg.Other", "acct.ID + 1", "acct.ID === 42", "acct.Owner + '!'", "acct.Balance * 2", "acct.Nested.K + 1", "acct.Nested.K === 9007199254740993", "acct.Meta.k", "acct.Meta.zz",
 			"acct.Tags[0]", "acct.Tags[1] + 1", "acct.Ptr.ID", "acct.Ptr!.ID", "acct.Any.x", "acct.Count * acct.Ratio", "acct.Flag ? acct.ID : 0", "year(acct.When)", "acct.SBase.Owner",
 			"sh.ID + sh.SBase.ID", "deep.K + deep.Level", "deep.SPtrEmb.Name", "pe.K", "pn.K", "pn.Name", "[base.ID, acct.ID, sh.ID]", "w.n.ID", "w.s.Nested.S == ''", "len(acct.Owner)",
 			"$a = acct.ID, $a + acct.ID", "acct.Missing ?? 1", "typeof acct", "typeof acct.ID", "acct == acct", "acct.Nested == acct.Nested", "!!acct", "acct ? 1 : 2", "acct && acct.ID"} {
